@@ -15,7 +15,7 @@ STRS = ['A', 'Ab', 'B', 'High', 'Low', 'Medium', 'a', 'a b', 'aa', 'b', 'z', 'é
 assert STRS == sorted(STRS, key=lambda s: s.encode('utf-8'))
 NAMES = ['Alpha', 'Beta rate', 'Gamma', 'Rate', 'Status']          # output component names, sorted
 assert NAMES == sorted(NAMES)
-INPUT_NAMES = ['a', 'b', 'c', 'd', 'e']
+INPUT_NAMES = ['a', 'b', 'Order size', 'd', 'e']
 POLICIES = ['UNIQUE', 'ANY', 'PRIORITY', 'FIRST', 'RULE ORDER', 'OUTPUT ORDER', 'COLLECT', 'C#', 'C+', 'C<', 'C>']
 POLICY_XML = {'UNIQUE': ('UNIQUE', None), 'ANY': ('ANY', None), 'PRIORITY': ('PRIORITY', None), 'FIRST': ('FIRST', None),
               'RULE ORDER': ('RULE ORDER', None), 'OUTPUT ORDER': ('OUTPUT ORDER', None), 'COLLECT': ('COLLECT', None),
